@@ -41,6 +41,11 @@ impl<'a> TokenBasedLuaGenerator<'a> {
             self.uncomment();
         }
 
+        if is_comment && self.output.ends_with('-') {
+            // a comment written right after a minus sign would start one character earlier
+            self.output.push(' ');
+        }
+
         self.push_str(content);
 
         match trivia.kind() {
